@@ -321,6 +321,7 @@ class AnnotationDAGBuilder:
             self._dag.add_node(get_node_id(input_node))
         else:
             self._traverse_breadth_first_to_dag(input_node, output_node)
+            self._dag.add_node(get_node_id(output_node))
 
         self._validate_graph()
 
